@@ -74,7 +74,7 @@ RECURSIVE Residue(_, _, _)
 Residue(os, i, q) ==
   IF i > Len(os) THEN Len(q)
   ELSE LET q2 == q \o os[i].lines IN
-       IF Refused(os[i]) THEN Residue(os, i + 1, q2)
+       IF Refused(os[i]) THEN Residue(os, i + 1, <<>>)
        ELSE Residue(os, i + 1, IF q2 = <<>> THEN q2 ELSE Tail(q2))
 
 View == <<st, Residue(outcomes, 1, <<>>), IF hist = <<>> THEN "" ELSE hist[Len(hist)]>>
